@@ -96,10 +96,17 @@ class CircuitOpSerializer(OpSerializer):
                 f'Encountered a circuit not in the constants table. Full error message:\n{err}'
             )
 
+        if op.parent_path:
+            # The proto has no field for the key path of an already rescoped operation.
+            raise ValueError(f'Cannot serialize a CircuitOperation with parent path {op.parent_path}')
+
         if (
             op.repetition_ids is not None
             and op.repetition_ids != circuit_operation.default_repetition_ids(op.repetitions)
         ):
+            if isinstance(op.repetitions, (int, np.integer)) and op.repetitions < 0:
+                # Only the ids are stored, so the sign of the repetition count would be lost.
+                raise ValueError('Cannot serialize custom repetition ids with negative repetitions')
             for rep_id in op.repetition_ids:
                 msg.repetition_specification.repetition_ids.ids.append(rep_id)
         elif isinstance(op.repetitions, (int, np.integer)):
